@@ -9,6 +9,8 @@ import (
 	"encoding/json"
 	"io"
 	"net"
+	"reflect"
+	"unsafe"
 
 	"github.com/varlink/go/varlink/internal/ctxio"
 )
@@ -21,17 +23,42 @@ func VerifNewConnection(c net.Conn) *Connection {
 // VerifNewCtxConn is the object handlers and upgraded clients get.
 func VerifNewCtxConn(c net.Conn) ReadWriterContext { return ctxio.NewConn(c) }
 
+
+// VerifUnknown is what VerifPeek reports for a count the tree under test does not keep in the expected field.
+const VerifUnknown = int64(-1) << 62
+
+// VerifPeek reads the lifecycle state without synchronisation: for controlled
+// executions (one thread runs at a time) and for quiescent services only. The fields are looked up by
+// name at run time, so that a tree which keeps its state differently still builds with this file (what it
+// does not have is reported as zero / nil / VerifUnknown).
+func (s *Service) VerifPeek() (running bool, listener net.Listener, conncount int64, protocol, address string) {
+	v := reflect.ValueOf(s).Elem()
+	if f := v.FieldByName("running"); f.IsValid() && f.Kind() == reflect.Bool {
+		running = f.Bool()
+	}
+	if f := v.FieldByName("listener"); f.IsValid() && f.Type() == reflect.TypeOf((*net.Listener)(nil)).Elem() {
+		listener = *(*net.Listener)(unsafe.Pointer(f.UnsafeAddr()))
+	}
+	conncount = VerifUnknown
+	if f := v.FieldByName("conncounter"); f.IsValid() && f.CanInt() {
+		conncount = f.Int()
+	}
+	if f := v.FieldByName("protocol"); f.IsValid() && f.Kind() == reflect.String {
+		protocol = f.String()
+	}
+	if f := v.FieldByName("address"); f.IsValid() && f.Kind() == reflect.String {
+		address = f.String()
+	}
+	return
+}
+
 // VerifSetListener installs a listener the way setListener does.
 func (s *Service) VerifSetListener(l net.Listener) {
 	s.mutex.Lock()
-	s.listener = l
-	s.mutex.Unlock()
-}
-
-// VerifPeek reads the lifecycle state without synchronisation: for controlled
-// executions (one thread runs at a time) and for quiescent services only.
-func (s *Service) VerifPeek() (running bool, listener net.Listener, conncount int64, protocol, address string) {
-	return s.running, s.listener, s.conncounter, s.protocol, s.address
+	defer s.mutex.Unlock()
+	if f := reflect.ValueOf(s).Elem().FieldByName("listener"); f.IsValid() && f.Type() == reflect.TypeOf((*net.Listener)(nil)).Elem() {
+		*(*net.Listener)(unsafe.Pointer(f.UnsafeAddr())) = l
+	}
 }
 
 // VerifNames returns the registered names in order, as an in-process GetInfo reports them (no private state
